@@ -45,10 +45,13 @@ SPECS = ["", "", "", "name", "line", "filename", "python_code", "python_expressi
          "traceback", "frame", "inputs", "output", "table", ">8", "^7name", "5:name", "x:name", "08.3f", "shout",
          "8shout", "e", "code", "namex", "file", "_value"]
 LITS = ["", "The ", " is ", " {{x}} ", "line:", "\n", "<i>"]
+STRS = ["", "", "text"]            # every optional string is tried empty as well as absent
 EXCS = ["KeyError", "ValueError", "TypeError", "ZeroDivisionError", "AttributeError", "RuntimeError"]
-CONDS = ["default", "default", "default", "true", "false", "truthy", "falsy"] + ["raise:" + e for e in EXCS[:3]]
+# a condition may return any object: its truthiness decides; None, 0, "", [] are falsy-but-different
+CONDS = (["default"] * 4 + ["true", "false", "truthy", "falsy", "val:0", "val:1", 'val:""', 'val:"x"', "val:[]", "val:[0]",
+                            "val:null", "val:{}", "val:0.0"] + ["raise:" + e for e in EXCS[:3]])
 MSGS = ["default"] * 6 + ["ret:custom text", "ret:", "retnone", "raise:ValueError", "raise:KeyError"]
-ACTIVATES = [True, True, True, False, False, 0, 1, "", "yes", None]
+ACTIVATES = [True, True, False, False, 0, 1, "", "yes", None, [], [0]]
 
 
 def gen_template(rng, names):
@@ -72,22 +75,22 @@ def gen_class(rng, idx, prior):
     attrs = {}
     if rng.random() < 0.35:
         attrs["title"] = rng.choice(["Title %d" % idx, None, ""])
-    if rng.random() < 0.12:
-        attrs["message"] = rng.choice(["class message", ""])
+    if rng.random() < 0.15:
+        attrs["message"] = rng.choice(["class message", "", ""])
     if rng.random() < 0.5:
         attrs["message_template"] = gen_template(rng, FIELD_NAMES)
     if rng.random() < 0.15:
-        attrs["else_message"] = "class else"
+        attrs["else_message"] = rng.choice(["class else", ""])
     if rng.random() < 0.2:
         attrs["else_message_template"] = gen_template(rng, FIELD_NAMES)
     if rng.random() < 0.12:
-        attrs["justification"] = "because"
+        attrs["justification"] = rng.choice(["because", ""])
     if rng.random() < 0.12:
         attrs["justification_template"] = gen_template(rng, FIELD_NAMES)
     if rng.random() < 0.2:
-        attrs["constant_fields"] = {rng.choice(FIELD_NAMES): rng.choice(VALUES) for _ in range(rng.randint(1, 2))}
+        attrs["constant_fields"] = {rng.choice(FIELD_NAMES): rng.choice(VALUES) for _ in range(rng.randint(0, 2))}
     if rng.random() < 0.15:
-        attrs["field_names"] = rng.sample(FIELD_NAMES, rng.randint(1, 2))
+        attrs["field_names"] = rng.sample(FIELD_NAMES, rng.randint(0, 2))
     return {"name": "U%d" % idx, "base": base, "attrs": attrs, "cond": rng.choice(CONDS), "msg": rng.choice(MSGS)}
 
 
@@ -96,7 +99,7 @@ def gen_kw(rng, cls_name, case):
     needs_msg = cls_name in BASES_MSG or _root_base(case, cls_name) in BASES_MSG
     r = rng.random()
     if r < 0.3 or (needs_msg and r < 0.55):
-        kw["message"] = rng.choice(["explicit message", "", "msg {a}"])
+        kw["message"] = rng.choice(["explicit message", "", "", "msg {a}"])
     if rng.random() < 0.35 or (needs_msg and "message" not in kw):
         kw["message_template"] = gen_template(rng, FIELD_NAMES)
     if rng.random() < 0.15:
@@ -104,18 +107,18 @@ def gen_kw(rng, cls_name, case):
     if rng.random() < 0.15:
         kw["else_message_template"] = gen_template(rng, FIELD_NAMES)
     if rng.random() < 0.2:
-        kw["label"] = rng.choice(["my_label", "other"])
+        kw["label"] = rng.choice(["my_label", "other", ""])
     if rng.random() < 0.2:
         kw["title"] = rng.choice(["My Title", ""])
     if rng.random() < 0.1:
-        kw["justification"] = "why"
-    if rng.random() < 0.3:
+        kw["justification"] = rng.choice(["why", ""])
+    if rng.random() < 0.35:
         kw["fields"] = {n: rng.choice(VALUES) for n in rng.sample(FIELD_NAMES, rng.randint(0, 3))}
     for n in FIELD_NAMES:
         if rng.random() < 0.75:
             kw[n] = rng.choice(VALUES)
     if rng.random() < 0.1:
-        kw["field_names"] = rng.sample(FIELD_NAMES, rng.randint(1, 2))
+        kw["field_names"] = rng.sample(FIELD_NAMES, rng.randint(0, 2))
     if rng.random() < 0.45:
         kw["activate"] = rng.choice(ACTIVATES)
     if rng.random() < 0.1:
@@ -130,8 +133,56 @@ def _root_base(case, name):
     return name
 
 
+def gen_scenario(rng):
+    """multi-step histories: override on a base, then on a class below it, use, clear, use again, override again"""
+    case = {"classes": [], "ops": [], "report": rng.choice(["main", "main", "other"])}
+    chain = rng.choice([["runtime_error", "type_error"], ["runtime_error", "name_error"], ["gently", "U0"],
+                        ["Feedback", "gently"], ["Feedback", "U0", "U1"], ["explain", "U0", "U1"]])
+    prev = chain[0]
+    for n in chain[1:]:
+        if n.startswith("U"):
+            attrs = {}
+            if rng.random() < 0.5:
+                attrs[rng.choice(["title", "message_template", "else_message"])] = rng.choice(["own", "", "own {a}"])
+            case["classes"].append({"name": n, "base": prev, "attrs": attrs, "cond": "default", "msg": "default"})
+        prev = n
+    creat = [c for c in chain if c not in ("runtime_error", "type_error", "name_error")]
+    attrs = ["title", "message_template", "else_message", "message"]
+
+    def use():
+        for c in creat:
+            if rng.random() < 0.7:
+                kw = {"a": rng.choice(VALUES)}
+                if c in BASES_MSG or _root_base(case, c) in BASES_MSG:
+                    kw["message_template"] = rng.choice(["kw {a}", ""])
+                if rng.random() < 0.4:
+                    kw["activate"] = rng.choice([False, 0, ""])
+                case["ops"].append({"op": "new", "cls": c, "kw": kw})
+        for c in chain:
+            case["ops"].append({"op": "probe", "cls": c, "attr": rng.choice(attrs)})
+
+    for _ in range(rng.randint(1, 3)):
+        order = list(chain)
+        if rng.random() < 0.4:
+            rng.shuffle(order)
+        for c in order:
+            if rng.random() < 0.75:
+                a = rng.choice(attrs)
+                v = rng.choice(["OV1", "OV2 {a}", "", None])
+                fields = {a: v}
+                if rng.random() < 0.15:
+                    fields["nonexistent_attr"] = 1
+                case["ops"].append({"op": "override", "cls": c, "fields": fields})
+        use()
+        case["ops"].append({"op": "clear"})
+        use()
+    return case
+
+
 def gen_case(rng, override_heavy=False):
-    case = {"classes": [], "ops": []}
+    if override_heavy and rng.random() < 0.6:
+        return gen_scenario(rng)
+    case = {"classes": [], "ops": [], "report": rng.choice(["main", "main", "main", "other"])}
     prior = []
     for i in range(rng.randint(0, 3)):
         c = gen_class(rng, i, prior)
@@ -164,8 +215,8 @@ def gen_case(rng, override_heavy=False):
             cls = rng.choice(creatable)
             kw = gen_kw(rng, cls, case)
             op = {"op": "new", "cls": cls, "kw": kw}
-            if cls == "give_partial":
-                op["args"] = [1]
+            if (cls in BASES_MSG or _root_base(case, cls) in BASES_MSG) and "message" in kw and rng.random() < 0.5:
+                op["args"] = [kw.pop("message")]          # gently("text") as well as gently(message="text")
             pr = rng.random()
             if pr < 0.15:
                 op["parent"] = {"scalar": rng.choice([3, "section", 0])}
@@ -191,7 +242,7 @@ def gen_case(rng, override_heavy=False):
                     if rng.random() < 0.3:
                         fields[a] = "boom"
                 else:
-                    fields[a] = rng.choice(["OV-" + a, "ov2", None])
+                    fields[a] = rng.choice(["OV-" + a, "ov2", None, ""])
             if fields:
                 case["ops"].append({"op": "override", "cls": t, "fields": fields})
         elif r < 0.92:
